@@ -27,7 +27,7 @@ RULE = (
 )
 ASSUMPTIONS = ["default ignore patterns only", "no hash collisions"]
 BUDGET = {"quick": (300, 4), "thorough": (80000, 16)}
-REQUIRED = ["flat", "root_level_mutation", "deep_mutation", "multi_format", "nested", "-n_generation", "sf_generation", "unchanged", "differing_nested_formats", "root_spelled_slash", "root_spelled_dotrel"]
+REQUIRED = ["flat", "root_level_mutation", "deep_mutation", "multi_format", "nested", "-n_generation", "sf_generation", "unchanged", "differing_nested_formats", "root_spelled_slash", "root_spelled_dotrel", "renamed_to_other_normal_form", "change_below_percent_folder"]
 
 P1 = {
     "kinds": ["create"] * 6 + ["create_sf"] * 2 + ["put_new"],
@@ -37,7 +37,7 @@ P1 = {
     "min_top": 1,
     "flags": {"-n": 0.2},
 }
-MUT = ["edit", "rename", "add", "add_dir", "rm", "rmtree"]
+MUT = ["edit", "rename", "add", "add_dir", "rm", "rmtree", "rename_normal_form", "rename_normal_form", "rename_normal_form", "edit_below_percent", "edit_below_percent"]
 
 
 @st.composite
@@ -47,6 +47,12 @@ def _scn(draw):
     if flat:
         scn["tree"] = {k: v for k, v in scn["tree"].items() if not isinstance(v, dict)} or {"only.txt": "x"}
         scn["steps"] = [s for s in scn["steps"] if s["op"] in ("create",) and s["root"] == ""]
+    used = hist.top_names_used(scn)
+    if not ({"Caf\u00e9.mov", "100% final"} & used) and draw(st.booleans()):
+        # a composed (NFC) name that can be renamed to its decomposed spelling, and a folder with a '%' in its name
+        scn["tree"]["Caf\u00e9.mov"] = "accent"
+        if not flat:
+            scn["tree"]["100% final"] = {"take %d.mov": "percent", "sub%s": {"deep.mov": "d"}, "Caf\u00e9": {"x": "y"}}
     scn["steps"].append({"op": "create", "root": "", "formats": draw(gen.formats(3)), "flags": []})
     if draw(st.booleans()):
         scn["steps"].append({"op": "create", "root": "", "formats": draw(gen.formats(2)), "flags": draw(st.sampled_from([[], [], ["-n"]]))})
@@ -65,7 +71,17 @@ def _scn(draw):
             parents = [""]
         else:
             parents = sorted(m.dirs) or [""]
-        if kind in ("edit", "rm") and files:
+        if kind == "rename_normal_form":
+            cand = [p for p in files + dirs if "\u00e9" in p.split("/")[-1]]
+            if cand:
+                src = draw(st.sampled_from(cand))
+                head, _, tail = src.rpartition("/")
+                mut = {"kind": "rename", "path": src, "new": (head + "/" if head else "") + tail.replace("\u00e9", "e\u0301")}
+        elif kind == "edit_below_percent":
+            cand = [p for p in files if "%" in p.rsplit("/", 1)[0]] if not rootlevel else []
+            if cand:
+                mut = {"kind": "edit", "path": draw(st.sampled_from(cand))}
+        elif kind in ("edit", "rm") and files:
             mut = {"kind": kind, "path": draw(st.sampled_from(files))}
         elif kind == "rename" and (files or dirs):
             src = draw(st.sampled_from(files + dirs))
@@ -80,7 +96,8 @@ def _scn(draw):
     scn["mutation"] = mut
     roots = [""] + [r for r in m.roots if r]
     scn["target"] = draw(st.sampled_from(roots + [""] * (2 * len(roots))))
-    scn["form"] = draw(st.sampled_from(["abs", "abs", "slash", "dotrel"]))  # how the root is spelled on the command line
+    scn["form"] = draw(st.sampled_from(["abs", "abs", "slash", "dotrel"]))
+    scn["verbose"] = draw(st.sampled_from([False, False, True]))  # how the root is spelled on the command line
     return scn
 
 
@@ -143,19 +160,24 @@ def run_case(scn, ctx):
                 elif mu["kind"] == "add_dir":
                     w.mkdir(p)
                 applied = True
+                if mu["kind"] == "rename" and "e\u0301" in mu.get("new", ""):
+                    feats.add("renamed_to_other_normal_form")
+                if "%" in posixpath.dirname(p):
+                    feats.add("change_below_percent_folder")
                 if posixpath.dirname(p) == target:
                     feats.add("root_level_mutation")
                 else:
                     feats.add("deep_mutation")
         form = scn.get("form", "abs")
+        dh = ["-dh", "-v"] if scn.get("verbose") else ["-dh"]
         if form == "slash":
-            res = w.verify(target + "/", flags=["-dh"])
+            res = w.verify(target + "/", flags=dh)
         elif form == "dotrel":
             import os as _os
 
-            res = w.run("verify", ["./" + _os.path.basename(w.abs(target)), "-dh"], cwd=_os.path.dirname(w.abs(target)))
+            res = w.run("verify", ["./" + _os.path.basename(w.abs(target))] + dh, cwd=_os.path.dirname(w.abs(target)))
         else:
-            res = w.verify(target, flags=["-dh"])
+            res = w.verify(target, flags=dh)
         if form != "abs":
             feats.add("root_spelled_" + form)
         require(res.exc is None, "no-internal-error", "verify -dh aborted: " + res.brief(), res)
